@@ -17,11 +17,42 @@ def patch_function(owner, name, old, new, count=1):
         wrapper = type(fn)
         fn = fn.__func__
     src = textwrap.dedent(inspect.getsource(fn))
-    # whitespace-insensitive anchor (the source is dedented before patching)
-    pat = r"\s+".join(re.escape(p) for p in old.split())
-    if not re.search(pat, src):
-        raise RuntimeError("mutant anchor not found in %s.%s: %r" % (owner, name, old))
-    src2 = re.sub(pat, lambda m: new, src, count=count)
+    if isinstance(owner, type):
+        # zero-argument super() needs the class cell, which a re-compiled function lacks
+        src = src.replace("super()", "super(%s, self)" % owner.__name__)
+    if "\n" in old:
+        # multi-line anchor: match consecutive lines by stripped content, re-indent the
+        # replacement lines with the indentation of the first matched line
+        olines = [ln.strip() for ln in old.split("\n")]
+        slines = src.split("\n")
+        nlines = new.split("\n")
+        done = 0
+        i = 0
+        out = []
+        while i < len(slines):
+            window = [ln.strip() for ln in slines[i:i + len(olines)]]
+            if done < count and window == olines:
+                indent = slines[i][:len(slines[i]) - len(slines[i].lstrip())]
+                base = None
+                for j, nl in enumerate(nlines):
+                    if j < len(olines):
+                        ind = slines[i + j][:len(slines[i + j]) - len(slines[i + j].lstrip())]
+                    else:
+                        ind = indent
+                    out.append(ind + nl.strip() if nl.strip() else "")
+                i += len(olines)
+                done += 1
+            else:
+                out.append(slines[i])
+                i += 1
+        if not done:
+            raise RuntimeError("mutant anchor not found in %s.%s: %r" % (owner, name, old))
+        src2 = "\n".join(out)
+    else:
+        pat = r"\s+".join(re.escape(p) for p in old.split())
+        if not re.search(pat, src):
+            raise RuntimeError("mutant anchor not found in %s.%s: %r" % (owner, name, old))
+        src2 = re.sub(pat, lambda m: new, src, count=count)
     modname = owner.__module__ if isinstance(owner, type) else owner.__name__
     g = sys.modules[modname].__dict__
     ns = {}
